@@ -9,8 +9,8 @@ T = pg.typing
 MISSING = pg.MISSING_VALUE
 
 TIERS = {
-    'quick': dict(shards=8, cases=18, family=7, strangers=3, values=40),
-    'thorough': dict(shards=16, cases=330, family=8, strangers=4, values=48),
+    'quick': dict(shards=8, cases=18, family=7, strangers=3, values=40, envelopes=1),
+    'thorough': dict(shards=16, cases=330, family=8, strangers=4, values=48, envelopes=2),
 }
 RULE = ('case = a pool of value specs: one generated spec (Bool/Int/Float/Str/Enum/List/'
         'Tuple fixed+variable/Dict const+dynamic keys/Object/Union/Any, ranges, sizes, '
@@ -39,6 +39,20 @@ ASSUMPTIONS = [
 ]
 
 SKIP = object()
+
+
+class Lazy:
+  """A witness dict that is rendered only when a violation is reported."""
+
+  def __init__(self, make):
+    self.make = make
+
+  def __call__(self, **extra):
+    return dict(self.make(), **extra)
+
+
+def wit(w, **extra):
+  return w(**extra) if isinstance(w, Lazy) else dict(w, **extra)
 
 
 def cases(ctx):
@@ -77,10 +91,37 @@ def short(v):
 
 # -- single-spec laws ---------------------------------------------------------------
 
+def idem_outcome(spec, v):
+  """None (rejected or idempotent) | 'rej' | 'diff' for one value."""
+  ok, r = S.accepts(spec, v)
+  if not ok:
+    return None
+  ok2, r2 = S.accepts(spec, r)
+  if not ok2:
+    return 'rej'
+  return None if same(r, r2) else 'diff'
+
+
 def single_laws(ctx, rng, d, spec, tag=None):
   c = ctx.counters
   name = cname(spec)
-  witness = {'spec': S.show(d), 'built': short(spec)}
+  witness = Lazy(lambda: {'spec': S.show(d), 'built': short(spec)})
+  has_tf = S.has_transform(d)
+  if has_tf:
+    c['transform_specs'] += 1
+  plain_twin = [None]
+  def tf_prefix(kind, v):
+    """'spec-with-transform:' when the same spec without its user transforms
+    does not show the violation on this value."""
+    if not has_tf:
+      return ''
+    if plain_twin[0] is None:
+      plain_twin[0] = S.build(S.strip_transforms(d))
+    try:
+      return '' if idem_outcome(plain_twin[0], v) == kind else 'spec-with-transform:'
+    except Exception:  # pylint: disable=broad-except
+      return 'spec-with-transform:'
+  kept = []
   snap = copy.deepcopy(spec)
   fmt = spec.format()
   # `==` of specs is demanded after the applies only where it held before them
@@ -103,17 +144,20 @@ def single_laws(ctx, rng, d, spec, tag=None):
     ctx.label = f'apply:{name}'
     ok2, r2 = S.accepts(spec, r)
     ctx.label = None
+    if len(kept) < 12:
+      kept.append(r)
     if not ok2 and 'rej' not in fired:
       fired.add('rej')
-      ctx.violation('apply-not-idempotent', f'{name}:reapply-rejected',
+      ctx.violation('apply-not-idempotent', f'{tf_prefix("rej", v)}{name}:reapply-rejected',
                     f'{spec!r}: apply({short(v)}) -> {short(r)}, which is rejected: {r2!r:.300}',
-                    dict(witness, value=short(v)))
+                    wit(witness, value=short(v)))
     elif ok2 and not same(r, r2) and 'diff' not in fired:
       fired.add('diff')
-      ctx.violation('apply-not-idempotent', f'{name}:reapply-differs',
+      ctx.violation('apply-not-idempotent', f'{tf_prefix("diff", v)}{name}:reapply-differs',
                     f'{spec!r}: apply({short(v)}) -> {short(r)}; apply of that -> {short(r2)}',
-                    dict(witness, value=short(v)))
-  default_law(ctx, spec, 'fresh', witness)
+                    wit(witness, value=short(v)))
+  default_law(ctx, spec, 'fresh', witness,
+              control=(lambda: S.build(S.strip_transforms(d))) if has_tf else None)
   c['spec_unchanged_checks'] += 1
   ctx.label = f'spec-eq:{name}'
   unchanged = spec.format() == fmt and (
@@ -121,10 +165,31 @@ def single_laws(ctx, rng, d, spec, tag=None):
   ctx.label = None
   if not unchanged:
     ctx.violation('spec-mutated-by-apply', name,
-                  f'before: {fmt}\nafter: {spec.format()}', witness)
+                  f'before: {fmt}\nafter: {spec.format()}', wit(witness))
+    return
+  # The values the applies returned belong to the caller: changing them must
+  # not reach the spec either.
+  c['alias_checks'] += 1
+  alias_law(ctx, spec, kept, witness)
+  for r in kept:
+    mutate_plain(r)
+  post_op_law(ctx, spec, snap, fmt, eq_before, 'direct-mutation', witness)
 
 
-def default_law(ctx, spec, origin, witness):
+def default_accepted(spec, counters=None):
+  d = spec.default
+  ok, r = S.accepts(spec, d, allow_partial=True)
+  if ok and not has_missing(d):
+    if counters is not None:
+      counters['default_strict_checks'] += 1
+    ok, r = S.accepts(spec, d)
+  return ok, r
+
+
+def default_law(ctx, spec, origin, witness, control=None, prefix=''):
+  """`control`: builds the spec of the same history-free, transform-free case;
+  when that one accepts its own default the mechanism gets `prefix` (default
+  'spec-with-transform:')."""
   if not spec.has_default:
     return
   c = ctx.counters
@@ -132,18 +197,181 @@ def default_law(ctx, spec, origin, witness):
   c['default_checks'] += 1
   d = spec.default
   ctx.label = f'apply-default:{name}'
-  ok, r = S.accepts(spec, d, allow_partial=True)
-  strict_ok = True
-  if ok and not has_missing(d):
-    c['default_strict_checks'] += 1
-    strict_ok, r = S.accepts(spec, d)
+  ok, r = default_accepted(spec, c)
   ctx.label = None
-  if not (ok and strict_ok):
+  if not ok:
     reason = S.why_rejected(spec, d) or 'unexplained'
     mech = name if origin == 'fresh' else 'after-extend:' + default_category(reason)
+    if control is not None:
+      try:
+        twin = control()
+        if twin is None or not twin.has_default or default_accepted(twin)[0]:
+          mech = (prefix or 'spec-with-transform:') + mech
+      except Exception:  # pylint: disable=broad-except
+        mech = (prefix or 'spec-with-transform:') + mech
     ctx.violation('default-rejected', mech,
                   f'{spec!r} rejects its own default {short(d)}: {r!r:.300}',
-                  dict(witness, default=short(d), origin=origin))
+                  wit(witness, default=short(d), origin=origin))
+
+
+# -- what apply returns belongs to the caller ---------------------------------------------
+
+def spec_nodes(spec, path=(), depth=0):
+  """(path, value spec) of a spec and of every nested value spec (public
+  accessors only)."""
+  yield path, spec
+  if depth > 8:
+    return
+  if isinstance(spec, T.List):
+    yield from spec_nodes(spec.element.value, path + ('[]',), depth + 1)
+  elif isinstance(spec, T.Tuple):
+    for i, e in enumerate(spec.elements):
+      yield from spec_nodes(e.value, path + (i,), depth + 1)
+  elif isinstance(spec, T.Dict) and spec.schema is not None:
+    for key, f in spec.schema.items():
+      yield from spec_nodes(f.value, path + (str(key),), depth + 1)
+  elif isinstance(spec, T.Union):
+    for i, x in enumerate(spec.candidates):
+      yield from spec_nodes(x, path + (f'|{i}',), depth + 1)
+
+
+def mutables(v, parent='top', depth=0):
+  """(object, type name of its container) for every plain list/dict reachable
+  through lists, dicts and tuples."""
+  if depth > 12 or isinstance(v, pg.Symbolic):
+    return
+  if isinstance(v, (list, dict)):
+    yield v, parent
+  if isinstance(v, (list, tuple)):
+    for x in v:
+      yield from mutables(x, type(v).__name__, depth + 1)
+  elif isinstance(v, dict):
+    for x in v.values():
+      yield from mutables(x, 'dict', depth + 1)
+
+
+def default_owners(spec):
+  """id -> (object, [(depth, node, container type)]) of the mutable objects
+  reachable from the default of the spec or of a nested spec."""
+  owners = {}
+  for path, node in spec_nodes(spec):
+    try:
+      if not node.has_default:
+        continue
+      dv = node.default
+    except Exception:  # pylint: disable=broad-except
+      continue
+    for obj, parent in mutables(dv):
+      owners.setdefault(id(obj), (obj, []))[1].append((len(path), node, parent))
+  return owners
+
+
+def alias_law(ctx, spec, results, witness):
+  """No mutable object reachable from a value that apply returned is an
+  object reachable from a default held by the spec."""
+  owners = default_owners(spec)
+  if not owners:
+    return
+  fired = set()
+  for r in results:
+    for obj, _ in mutables(r):
+      rec = owners.get(id(obj))
+      if rec is None or rec[0] is not obj:
+        continue
+      ctx.counters['alias_found'] += 1
+      if any(node.frozen for _, node, _ in rec[1]):
+        mech = 'frozen-default-returned'
+      else:
+        _, node, parent = max(rec[1], key=lambda t: t[0])
+        mech = f'default-shared:{cname(node)}'
+      if mech in fired:
+        continue
+      fired.add(mech)
+      ctx.violation('result-aliases-spec-default', mech,
+                    f'{spec!r}: the applied value {short(r)} contains the very object '
+                    f'{short(obj)} that a default of the spec holds', wit(witness))
+
+
+def mutate_plain(v, depth=0):
+  """User code changing a plain value it got back from apply, in place."""
+  if depth > 12 or isinstance(v, pg.Symbolic):
+    return
+  if isinstance(v, list):
+    for x in v:
+      mutate_plain(x, depth + 1)
+    if v and isinstance(v[0], (int, float)) and not isinstance(v[0], bool):
+      v[0] = v[0] + 1000
+    v.append('__mutated__')
+  elif isinstance(v, dict):
+    for x in list(v.values()):
+      mutate_plain(x, depth + 1)
+    if v:
+      del v[next(iter(v))]
+    v['__mutated__'] = ['__mutated__']
+  elif isinstance(v, tuple):
+    for x in v:
+      mutate_plain(x, depth + 1)
+
+
+def rewriting_child_transform(path, field, value):
+  """A child_transform that rewrites leaves and reorders lists in place."""
+  del path, field
+  if isinstance(value, bool) or value is None:
+    return value
+  if isinstance(value, int):
+    return value * 2 + 1
+  if isinstance(value, float):
+    return value + 0.5
+  if isinstance(value, str):
+    return value + '!'
+  if isinstance(value, list) and not isinstance(value, pg.Symbolic):
+    value.reverse()
+  return value
+
+
+def changed_default_nodes(spec, snap):
+  """Innermost nested specs whose default differs from the snapshot's."""
+  changed = []
+  for (path, node), (_, old) in zip(spec_nodes(spec), spec_nodes(snap)):
+    try:
+      if node.has_default != old.has_default or (
+          node.has_default and not strict_same(node.default, old.default)):
+        changed.append((path, node))
+    except Exception:  # pylint: disable=broad-except
+      changed.append((path, node))
+  return [(p, n) for p, n in changed
+          if not any(q != p and q[:len(p)] == p for q, _ in changed)]
+
+
+def post_op_law(ctx, spec, snap, fmt, eq_before, op, witness, recheck=None):
+  """After user code / other specs worked on values that `spec.apply`
+  returned, the spec is still what its snapshot says."""
+  c = ctx.counters
+  c['post_op_spec_checks'] += 1
+  name = cname(spec)
+  ctx.label = f'spec-eq:{name}'
+  fmt_ok = spec.format() == fmt
+  eq_ok = not eq_before or ((spec == snap) and (snap == spec))
+  ctx.label = None
+  inner = changed_default_nodes(spec, snap)
+  redo_ok = True
+  if recheck is not None and fmt_ok and eq_ok and not inner:
+    redo_ok = recheck()
+  if fmt_ok and eq_ok and not inner and redo_ok:
+    return True
+  if inner:
+    loose = [n for _, n in inner if not n.frozen]
+    mech = ('default-shared:' + cname(loose[0])) if loose else 'frozen-default-returned'
+  elif not redo_ok:
+    mech = 'same-input-other-result'
+  else:
+    mech = 'other-parameter'
+  ctx.violation(
+      'spec-mutated-by-apply', 'via-result:' + mech,
+      f'after {op} on a value that apply returned:\nbefore: {fmt}\nafter: {spec.format()}\n'
+      f'changed defaults at {[".".join(map(str, p)) or "$" for p, _ in inner]}',
+      wit(witness, op=op))
+  return False
 
 
 BOUND_PARAMS = {'min-value', 'max-value', 'min-size', 'max-size', 'length',
@@ -160,6 +388,17 @@ def default_category(reason):
   if param == 'frozen':
     return 'nested-frozen-default-replaced'
   return param
+
+
+def same_default(a, b):
+  """`same`, or equal as containers (a class definition turns plain default
+  containers into symbolic ones)."""
+  if same(a, b):
+    return True
+  try:
+    return isinstance(a, type(b)) or isinstance(b, type(a)) and bool(a == b)
+  except Exception:  # pylint: disable=broad-except
+    return False
 
 
 def strict_same(a, b):
@@ -295,24 +534,81 @@ def reason_key(spec, v):
   return r
 
 
+def warm(ctx, rng, spec, n=3):
+  """Prior use of a spec instance: a few applies (accepted and rejected values,
+  strict and partial), rendering, comparison."""
+  if rng.random() < 0.25:
+    vs = S.own_values(rng, spec, 0)
+    rng.shuffle(vs)
+  else:
+    vs = rng.sample(S.UNIVERSAL, n - 1)
+    if spec.has_default:
+      vs.insert(0, spec.default)
+  ctx.label = f'apply:{cname(spec)}'
+  for v in vs[:n]:
+    S.accepts(spec, v, allow_partial=rng.random() < 0.3)
+  ctx.label = f'spec-eq:{cname(spec)}'
+  spec.format()
+  _ = spec == spec
+  ctx.label = None
+  ctx.counters['warmups'] += 1
+
+
+def history_prefix(hist):
+  """Names the harness-made circumstance without which (transform-free,
+  never-used specs, plain `extend`) a violation does not show."""
+  if hist.get('tf'):
+    return 'spec-with-transform:'
+  if hist.get('warmed'):
+    return 'after-prior-use:'
+  if hist.get('mode') == 'class':
+    return 'class-inheritance:'
+  return ''
+
+
 def compat_law(ctx, rng, da, db, a, b, state):
   c = ctx.counters
   c['compat_evals'] += 1
+  hist = {'tf': S.has_transform(da) or S.has_transform(db)}
+  if rng.random() < 0.25:
+    hist['warmed'] = True
+    warm(ctx, rng, a)
+    warm(ctx, rng, b)
   if not compat(ctx, a, b):
     return
   c['compat_true_pairs'] += 1
   fired = set()
   checked = 0
+  control = []
+  def prefix(v):
+    if not history_prefix(hist):
+      return ''
+    if not control:
+      control.extend([S.build(S.strip_transforms(da)), S.build(S.strip_transforms(db))])
+    a0, b0 = control
+    try:
+      again = (a0.is_compatible(b0) and S.accepts(b0, v)[0] and not S.accepts(a0, v)[0])
+    except Exception:  # pylint: disable=broad-except
+      again = False
+    return '' if again else history_prefix(hist)
   for v in S.candidates(rng, [b, a], ctx.params['values']):
-    okb, _ = S.accepts(b, v)
+    okb, _, seen_b = S.accepts_tracked(b, v)
     if not okb:
+      continue
+    if seen_b:
+      # A user transform changed the value: what the spec accepts is then
+      # decided by user code, which the claim does not cover.
+      c['dontcare_transform_visible'] += 1
       continue
     checked += 1
     c['compat_value_checks'] += 1
     ctx.label = f'apply:{cname(a)}'
-    oka, err = S.accepts(a, v)
+    oka, err, seen_a = S.accepts_tracked(a, v)
     ctx.label = None
     if oka:
+      continue
+    if seen_a:
+      c['dontcare_transform_visible'] += 1
       continue
     la, lb, lv = localize(ctx, a, b, v)
     reason = reason_key(la, lv)
@@ -332,6 +628,7 @@ def compat_law(ctx, rng, da, db, a, b, state):
       mech = 'Enum<-frozen:type' if isinstance(la, T.Enum) else 'Union[Enum]<-frozen:type'
     else:
       mech = pair_mechanism(la, lb, reason, '<-')
+    mech = prefix(v) + mech
     if mech in fired:
       continue
     fired.add(mech)
@@ -523,10 +820,22 @@ def localize_incompatible(ext, base, depth=0):
   return ext, base
 
 
-def extend_mechanism(ext, child, base, v):
+def extend_mechanism(ext, child, base, v, dependent=False):
+  """`dependent`: the violation does not show for transform-free, never-used
+  specs; the mechanism then names the level of the spec pair at which the
+  extended spec behaves unlike what it renders, not a nested parameter."""
   le, lc, lb, lv = localize_ext(ext, child, base, v)
+  if dependent and not le.frozen:
+    reason = S.why_rejected(lb, lv) or 'unexplained'
+    if reason.endswith('.required'):
+      return None
+    if (isinstance(le, T.Dict) and isinstance(lc, T.Dict) and lc.schema is None
+        and le.schema is not None):
+      return f'{cname(le)}->{cname(lb)}:schema-inherited'
+    own = reason.startswith(cname(lb) + '.') or reason.startswith('Union.')
+    return pair_mechanism(le, lb, reason, '->') if own else f'{cname(le)}->{cname(lb)}:nested'
   if le.frozen:
-    if lc is not None and lc.has_default and not same(le.default, lc.default):
+    if lc is not None and lc.has_default and not same_default(le.default, lc.default):
       return f'frozen-default-replaced:{cname(le)}'
     if frozen_shortcut(le, lv):
       return 'frozen-shortcut'
@@ -543,26 +852,98 @@ def extend_mechanism(ext, child, base, v):
   return pair_mechanism(le, lb, reason, '->')
 
 
+_CLASS_SERIAL = [0]
+
+
+def class_extend(child, base):
+  """Schema inheritance as users write it: a pg.Object subclass overrides the
+  field of its base class. Returns the two classes."""
+  _CLASS_SERIAL[0] += 1
+  n = _CLASS_SERIAL[0]
+  base_cls = type(f'PgvBase{n}', (pg.Object,),
+                  {'__annotations__': {'x': base}, '__module__': __name__})
+  child_cls = type(f'PgvChild{n}', (base_cls,),
+                   {'__annotations__': {'x': child}, '__module__': __name__})
+  return base_cls, child_cls
+
+
 def extend_law(ctx, rng, da, db, a, base, state):
   c = ctx.counters
   child = S.build(da)
   c['extend_evals'] += 1
+  hist = {'tf': S.has_transform(da) or S.has_transform(db), 'mode': 'spec'}
+  if rng.random() < 0.4:
+    # The child spec was in use before it is extended.
+    hist['warmed'] = True
+    warm(ctx, rng, child)
+  if rng.random() < 0.12:
+    hist['mode'] = 'class'
+    base = S.build(db)       # class creation re-applies defaults symbolically
+    if hist.get('warmed'):
+      warm(ctx, rng, base)
   ctx.label = f'extend:{cname(child)}'
+  del S.TF_EVENTS[:]
   try:
-    ext = child.extend(base)
+    if hist['mode'] == 'class':
+      base_cls, child_cls = class_extend(child, base)
+      ext, base = child_cls.__schema__['x'].value, base_cls.__schema__['x'].value
+    else:
+      ext = child.extend(base)
   except S.APPLY_ERRORS:
     ctx.label = None
     c['extend_refused'] += 1
     return
   ctx.label = None
+  if S.TF_EVENTS:
+    # extend() itself ran a user transform that changed or refused a value
+    # (an Enum offers its members to the base spec): the outcome was decided
+    # by user code.
+    del S.TF_EVENTS[:]
+    c['dontcare_transform_visible'] += 1
+    return
   c['extend_ok'] += 1
+  if hist.get('warmed'):
+    c['extend_ok_warmed'] += 1
+  if hist['mode'] == 'class':
+    c['extend_ok_class'] += 1
+  if hist['tf']:
+    c['extend_ok_transform'] += 1
   pair = f'{cname(child)}->{cname(base)}'
-  witness = {'child': S.show(da), 'base': S.show(db), 'extended': short(ext)}
+  witness = Lazy(lambda: {'child': S.show(da), 'base': S.show(db), 'extended': short(ext),
+                          'history': {k: v for k, v in hist.items() if v}})
+  control = []
+  def plain_extension():
+    """(extended, base) of the same descriptions without transforms, never
+    used before, extended with `extend`; (None, None) when refused."""
+    if not control:
+      try:
+        b0 = S.build(S.strip_transforms(db))
+        control.extend([S.build(S.strip_transforms(da)).extend(b0), b0])
+      except Exception:  # pylint: disable=broad-except
+        control.extend([None, None])
+    return control
+  def dependent(v):
+    """True when the plain extension does not show the violation on `v`."""
+    if not history_prefix(hist):
+      return False
+    e0, b0 = plain_extension()
+    if e0 is None:
+      return True
+    try:
+      if not S.accepts(e0, v)[0]:
+        return True
+      pv0 = project(v, e0, b0)
+      return pv0 is SKIP or S.accepts(b0, pv0)[0]
+    except Exception:  # pylint: disable=broad-except
+      return True
   fired = set()
   checked = 0
   for v in S.candidates(rng, [ext, base, a], ctx.params['values']):
-    okc, _ = S.accepts(ext, v)
+    okc, _, seen_c = S.accepts_tracked(ext, v)
     if not okc:
+      continue
+    if seen_c:
+      c['dontcare_transform_visible'] += 1
       continue
     pv = project(v, ext, base)
     if pv is SKIP:
@@ -570,15 +951,28 @@ def extend_law(ctx, rng, da, db, a, base, state):
       continue
     checked += 1
     c['extend_value_checks'] += 1
+    if hist['mode'] == 'class':
+      # Not judged (the constructor is the subject of other properties).
+      try:
+        child_cls(x=S.detached(v))
+        c['class_ctor_agrees'] += 1
+      except Exception:  # pylint: disable=broad-except
+        c['class_ctor_rejects_what_spec_accepts'] += 1
     ctx.label = f'apply:{cname(base)}'
-    okb, err = S.accepts(base, pv)
+    okb, err, seen_b = S.accepts_tracked(base, pv)
     ctx.label = None
     if okb:
       continue
-    mech = extend_mechanism(ext, a, base, pv)
+    if seen_b:
+      c['dontcare_transform_visible'] += 1
+      continue
+    dep = dependent(v)
+    mech = extend_mechanism(ext, a, base, pv, dependent=dep)
     if mech is None:
       c['dontcare_omitted_field'] += 1
       continue
+    if dep:
+      mech = history_prefix(hist) + mech
     if mech in fired:
       continue
     fired.add(mech)
@@ -586,7 +980,7 @@ def extend_law(ctx, rng, da, db, a, base, state):
         'extend-unsound', mech,
         f'child={a!r}\nbase={base!r}\nextended={ext!r}\nvalue {short(v)} (on shared fields: '
         f'{short(pv)}) is accepted by the extended spec and rejected by the base: {err!r:.300}',
-        dict(witness, value=short(v)))
+        wit(witness, value=short(v)))
   extras = no_extra_fields(ext, base)
   if extras:
     c['extend_compat_checks'] += 1
@@ -597,12 +991,21 @@ def extend_law(ctx, rng, da, db, a, base, state):
       pair = f'{cname(le)}->{cname(lb)}'
       if isinstance(le, T.Enum) and not isinstance(lb, (T.Enum, T.Union, T.Any)):
         pair = 'Enum->other-class'
+      if history_prefix(hist):
+        e0, b0 = plain_extension()
+        try:
+          if e0 is None or b0.is_compatible(e0):
+            pair = history_prefix(hist) + pair
+        except Exception:  # pylint: disable=broad-except
+          pair = history_prefix(hist) + pair
       ctx.violation('extend-not-compatible', pair,
                     f'child={a!r}\nbase={base!r}\nextended={ext!r}\n'
-                    'extend() succeeded but base.is_compatible(extended) is False', witness)
+                    'extend() succeeded but base.is_compatible(extended) is False', wit(witness))
   else:
     c['extend_compat_skipped'] += 1
-  default_law(ctx, ext, 'extend', witness)
+  default_law(ctx, ext, 'extend', witness,
+              control=(lambda: plain_extension()[0]) if history_prefix(hist) else None,
+              prefix=history_prefix(hist))
   if checked:
     state['nontrivial'] = True
 
@@ -612,13 +1015,135 @@ def extend_law(ctx, rng, da, db, a, base, state):
 def make_pool(rng, params):
   regex = rng.random() < 0.12
   base = S.gen_spec(rng, 0, 3, regex=regex)
+  if rng.random() < 0.5:
+    base = S.add_transforms(rng, base, 0.5)
   pool = [base]
   for _ in range(params['family']):
     src = rng.choice(pool)
-    pool.append(S.variant(rng, src))
+    v = S.variant(rng, src)
+    r = rng.random()
+    if r < 0.3:
+      v = S.add_transforms(rng, v, 0.5)
+    elif r < 0.45:
+      v = S.strip_transforms(v)
+    pool.append(S.settle_transforms(v))
   for _ in range(params['strangers']):
     pool.append(S.gen_spec(rng, 0, 2))
   return pool
+
+
+# -- completion by defaults, then work on the completed value ----------------------------
+
+def make_envelope(rng, pool):
+  """A Dict spec whose fields are default-heavy specs and members of the pool
+  (so that apply completes omitted keys from defaults), possibly inside a
+  List / Tuple / Dict."""
+  fields = [[f'h{i}', S.gen_defaulted(rng)] for i in range(rng.randint(1, 3))]
+  for i, d in enumerate(rng.sample(pool, min(2, len(pool)))):
+    fields.append([f'p{i}', copy.deepcopy(d)])
+  rng.shuffle(fields)
+  env = {'k': 'dict', 'fields': fields}
+  r = rng.random()
+  if r < 0.2:
+    env = {'k': 'list', 'el': env, 'min': None, 'max': None}
+  elif r < 0.35:
+    env = {'k': 'tuple', 'els': [env]}
+  elif r < 0.5:
+    env = {'k': 'dict', 'fields': [['e', env]]}
+  if rng.random() < 0.3:
+    env = S.add_transforms(rng, env, 0.25)
+  return env
+
+
+def make_input(rng, d, spec):
+  """A (mostly partial) input for the envelope: omitted keys are completed."""
+  k = d['k']
+  if k == 'list':
+    return [make_input(rng, d['el'], spec.element.value) for _ in range(rng.randint(1, 2))]
+  if k == 'tuple':
+    return tuple(make_input(rng, e, spec.elements[i].value) for i, e in enumerate(d['els']))
+  if k == 'dict' and d['fields'] and d['fields'][0][0] == 'e':
+    if rng.random() < 0.4:
+      return {}
+    return {'e': make_input(rng, d['fields'][0][1], spec.schema['e'].value)}
+  out = {}
+  for name, fd in d['fields']:
+    f = spec.schema[name].value
+    if rng.random() < (0.25 if f.has_default else 0.8):
+      ok, _ = S._pick_ok(rng, f, 1, 2)       # pylint: disable=protected-access
+      if ok:
+        out[name] = S.detached(ok[0])
+  return out
+
+
+ENVELOPE_OPS = ['widened-spec-apply', 'child-transform-reapply',
+                'child-transform-completion', 'direct-mutation']
+
+
+def envelope_law(ctx, rng, pool):
+  """Completes a partial value from defaults, then lets other code work on
+  the completed value; after every such operation the spec (rendering, ==,
+  every nested default, the completion of the same input) is what it was."""
+  c = ctx.counters
+  de = make_envelope(rng, pool)
+  witness = {'envelope': S.show(de)}
+  try:
+    wide = S.build(S.widen(de))
+  except Exception:  # pylint: disable=broad-except
+    wide = None
+  inp = None
+  for op in ENVELOPE_OPS:
+    spec = S.build(de)
+    name = cname(spec)
+    if inp is None:
+      inp = make_input(rng, de, spec)
+      witness['input'] = short(inp)
+    snap = copy.deepcopy(spec)
+    fmt = spec.format()
+    ctx.label = f'spec-eq:{name}'
+    eq_before = (spec == snap) and (snap == spec)
+    ctx.label = None
+    partial = False
+    ctx.label = f'apply:{name}'
+    ok, r = S.accepts(spec, inp)
+    if not ok:
+      partial = True
+      ok, r = S.accepts(spec, inp, allow_partial=True)
+    ctx.label = None
+    if not ok:
+      c['envelope_input_rejected'] += 1
+      return
+    c['envelope_completions'] += 1
+    first = copy.deepcopy(r)
+    c['alias_checks'] += 1
+    alias_law(ctx, spec, [r], witness)
+    def recheck():
+      ok2, r2 = S.accepts(spec, inp, allow_partial=partial)
+      return ok2 and strict_same(r2, first)
+    if op == ENVELOPE_OPS[0] and not post_op_law(
+        ctx, spec, snap, fmt, eq_before, 'apply', witness, recheck):
+      return
+    ctx.label = f'apply:{op}'
+    try:
+      if op == 'widened-spec-apply':
+        if wide is None:
+          continue
+        wide.apply(r, allow_partial=True)
+      elif op == 'child-transform-reapply':
+        spec.apply(r, allow_partial=True, child_transform=rewriting_child_transform)
+      elif op == 'child-transform-completion':
+        spec.apply(S.detached(inp), allow_partial=partial,
+                   child_transform=rewriting_child_transform)
+        spec.apply(S.detached(inp), allow_partial=partial,
+                   child_transform=rewriting_child_transform)
+      else:
+        mutate_plain(r)
+    except S.APPLY_ERRORS:
+      c['envelope_op_raised'] += 1
+    ctx.label = None
+    c['envelope_ops'] += 1
+    if not post_op_law(ctx, spec, snap, fmt, eq_before, op, witness, recheck):
+      return
 
 
 def run_case(ctx, i):
@@ -640,6 +1165,8 @@ def run_case(ctx, i):
       a, b = S.build(da), S.build(db)
       compat_law(ctx, rng, da, db, a, b, state)
       extend_law(ctx, rng, da, db, a, b, state)
+  for _ in range(ctx.params.get('envelopes', 2)):
+    envelope_law(ctx, rng, pool)
   if state['nontrivial']:
     ctx.mark_nontrivial(tuple(S.show(d) for d in pool))
   if i < 2:
